@@ -105,11 +105,23 @@ def judge_decoder(name, starts, nlooks, acc, full=True):
     bad = []
     per_end_rest = {}
     for si, s0 in enumerate(starts):
-        s, _ = D.in_domain(name, 'se', s0, (0, 0, 0, 0), 1)
+        ood = s0 == 'OUT-OF-TABLE'
+        if ood:
+            # enum-valued START words outside their table: the pinned tree refuses to decode such a call (it raises); a tree that
+            # does decode it owes it the same result part
+            en = [k for k in D.enums(name, 'se') if k[0] == 's']
+            if not en:
+                continue
+            s = list(STARTS[0])
+            for k in en:
+                s[int(k[1])] = 0x7fff3
+            s = tuple(s)
+        else:
+            s, _ = D.in_domain(name, 'se', s0, (0, 0, 0, 0), 1)
         for nlook in nlooks:
             call0 = None
             extra0 = None
-            for err in (ERRS if full or si == 0 else (0, 2, 9999, M64)):
+            for err in (ERRS if (full or si == 0) and not ood else (0, 2, 9999, M64)):
                 for ret in RETS:
                     for tail in TAILS:
                       for shape in ((None, 'long', 'crossing', 'enclosing', 'odd-timestamps', 'other-open-inside', 'other-open-before', 'same-thread-crossing', 'start-without-end-after', 'with-related-records', 'nested-then-orphan-end') if (err in (0, 2, 9999) and ret in (0x55, M64) and tail == TAILS[1] and si == 0) else (None,)):
@@ -121,6 +133,10 @@ def judge_decoder(name, starts, nlooks, acc, full=True):
                                 bad.append((f'result-lost-in-{shape}-window@{name}', case, {}))
                                 continue
                         except Exception as ex:
+                            if ood:
+                                acc.count('out_of_table_start_words_refused')
+                                acc.case(nontrivial=False, transitions=2)
+                                continue
                             bad.append((f'render-raised:{type(ex).__name__}@{name}', case, {'error': repr(ex)[:200]}))
                             acc.case(nontrivial=True, transitions=2)
                             continue
@@ -178,7 +194,7 @@ def judge_decoder(name, starts, nlooks, acc, full=True):
 class C10(Check):
     pid = 'C10'
     level = 'exploration'
-    rule = ('every BSD decoder outside the exempt list (15 names from the statement) x START tuples {junk, zeros, all-ones} (enum words forced in-domain; quick: zeros and all-ones meet error words {0, 2, 9999, 2^64-1} only) x END tuples = error word {0, every errno 1..106, 107, 110, 250, 255, '
+    rule = ('every BSD decoder outside the exempt list (15 names from the statement) x START tuples {junk, zeros, all-ones} (enum words forced in-domain; plus one tuple with the enum-valued words OUTSIDE their table, judged only if the tree decodes it at all; quick: zeros and all-ones meet error words {0, 2, 9999, 2^64-1} only) x END tuples = error word {0, every errno 1..106, 107, 110, 250, 255, '
             '9999, 2^31, 2^32, 2^63, 2^64-1} x return word {0,1,10,0x55,1000,2^31,2^63,2^64-1} x words 2,3 {(0,0),(0x66,0x77)} x '
             'lookups in window {6 (quick); 0 and 6 (thorough)}; for 12 END tuples per decoder also a window with 5000 stand-alone '
             'same-thread records between START and END, and crossing / enclosing windows (another thread inside the same call with other END '
@@ -195,7 +211,7 @@ class C10(Check):
         return [('dec', ch) for ch in chunked(bsd_decoders(), 24)]
 
     def run_shard(self, desc, acc):
-        starts = STARTS
+        starts = STARTS + ['OUT-OF-TABLE']
         nlooks = [6] if self.tier == 'quick' else [0, 6]
         for name in desc[1]:
             for sig, case, detail in judge_decoder(name, starts, nlooks, acc, full=self.tier != 'quick'):
@@ -205,7 +221,7 @@ class C10(Check):
         name = case['decoder']
         acc_dummy = type('A', (), {'case': lambda *a, **k: None, 'count': lambda *a, **k: None, 'want_sample': lambda s: False,
                                    'sample': lambda *a: None})()
-        bad = judge_decoder(name, STARTS, [0, 6], acc_dummy)
+        bad = judge_decoder(name, STARTS + ['OUT-OF-TABLE'], [0, 6], acc_dummy)
         return [(sig, detail) for sig, c, detail in bad][:5]
 
 
